@@ -31,6 +31,16 @@ type (
 	ConnectionState    = tls.ConnectionState
 	ClientSessionCache = tls.ClientSessionCache
 	ClientSessionState = tls.ClientSessionState
+	// error and description types code may name
+	RecordHeaderError            = tls.RecordHeaderError
+	CertificateVerificationError = tls.CertificateVerificationError
+	AlertError                   = tls.AlertError
+	CertificateRequestInfo       = tls.CertificateRequestInfo
+	ClientHelloInfo              = tls.ClientHelloInfo
+	CurveID                      = tls.CurveID
+	SignatureScheme              = tls.SignatureScheme
+	ClientAuthType               = tls.ClientAuthType
+	RenegotiationSupport         = tls.RenegotiationSupport
 )
 
 func NewLRUClientSessionCache(capacity int) ClientSessionCache {
